@@ -105,7 +105,18 @@ fn build_chars(types: &[MLtt], ent: &[u32]) -> Option<(Vec<u8>, Vec<u8>)> {
         let j = (e(ent, 31 + i) as usize) % (i + 1);
         order.swap(i, j);
     }
-    for &k in &order {
+    // one table in five is padded so that the last placed designation starts at an index in 249..=255 (the largest a one-octet index
+    // can hold) and runs past offset 256
+    let pad_to: Option<usize> = if e(ent, 32) % 5 == 0 { Some(249 + (e(ent, 33) % 7) as usize) } else { None };
+    for (pos, &k) in order.iter().enumerate() {
+        if let (Some(p), true) = (pad_to, pos + 1 == order.len()) {
+            if chars.len() < p {
+                while chars.len() + 1 < p {
+                    chars.push(b'q');
+                }
+                chars.push(0);
+            }
+        }
         let name: &[u8] = types[k].name.as_deref().unwrap_or("").as_bytes();
         // reuse: find an existing occurrence of name+NUL (also as a suffix of a longer string)
         let mut needle = name.to_vec();
@@ -441,6 +452,12 @@ pub fn check_bytes(bytes: &[u8], must_reject: bool, expect: Option<&TimeZone>, s
     Ok(())
 }
 
+/// The bytes of a file case (None: zone not representable in that version, or defect not applicable).
+pub fn bytes_for(c: &FileCase) -> Option<Vec<u8>> {
+    let fm = file_of(c)?;
+    corrupt(&fm, &c.defect).map(|x| x.0)
+}
+
 pub fn check_file(c: &FileCase, st: &mut Stats) -> Result<(), String> {
     let fm = match file_of(c) {
         Some(f) => f,
@@ -481,6 +498,9 @@ pub fn check_file(c: &FileCase, st: &mut Stats) -> Result<(), String> {
     });
     if must {
         st.class("must_reject");
+    }
+    if blk.chars.len() > 256 && blk.ttinfos.iter().any(|t| t.2 >= 249) {
+        st.class("designation_running_past_offset_256");
     }
     if st.wants_sample("file") {
         st.sample("file", || json!({"version": fm.version, "timecnt": blk.times.len(), "typecnt": blk.ttinfos.len(), "charcnt": blk.chars.len(), "leapcnt": blk.leaps.len(), "isstdcnt": blk.isstd.len(), "isutcnt": blk.isut.len(), "footer": String::from_utf8_lossy(&fm.footer), "defect": format!("{:?}", c.defect)}));
